@@ -73,7 +73,9 @@ def new_line(inst: str, cls: str, params: dict) -> str:
         if kind == "f":
             parts.append(f"{name}={f2h(v)}")
         elif kind == "n":
-            parts.append(f"{name}={int(v)}")
+            # the model's naturals: negative limits (RDDM's unvalidated max_concept_size / max_num_instances_warning) behave exactly like 0
+            # in the Python comparisons `counter >= limit`, so they are sent as 0
+            parts.append(f"{name}={max(0, int(v))}")
         else:
             parts.append(f"{name}={1 if v else 0}")
     return " ".join(parts)
